@@ -4,7 +4,7 @@
 // every serializable type (2-6 values each, built at LogN 4/5 so that every byte offset can be a fault
 // point), whose method set is discovered dynamically, is pushed through seven oracle families:
 // entry points, receiver history, stream composition, fragmentation, truncation, header corruption,
-// failing writers. One scenario per (type, value, family).
+// failing writers. One scenario per (type, family); leaves loop over the catalogue values of the type.
 package main
 
 import (
@@ -35,26 +35,27 @@ var families = []family{
 func scenarios(tier string) []engine.Scenario {
 	cat := catalogue()
 	var scs []engine.Scenario
-	// interleave families so that the round-robin distribution gives every worker a mix of cheap and dear ones
+	// One scenario per (type, family); a leaf loops over the catalogue values of the type, so that a defect of a
+	// type is one violating leaf per family and not one per value (the engine keeps a bounded number of violating
+	// leaves per worker, whatever the number of workers). Families are interleaved so that the round-robin
+	// distribution gives every worker a mix of cheap and dear ones.
 	for _, e := range cat {
-		for vi := range e.vals {
-			for _, f := range families {
-				e, vi, f := e, vi, f
-				name := fmt.Sprintf("c08/%s/%s/%s", f.name, e.name, e.vals[vi].label)
-				scs = append(scs, engine.Scenario{Name: name, Bound: -1, Fn: func(c *engine.Chooser) {
-					if timingFile != nil {
-						t0 := time.Now()
-						defer func() { timing(name, time.Since(t0)) }()
-					}
-					o := original(c.Seed, e, vi)
-					if got := typeName(o.obj); got != e.name {
-						panic(fmt.Sprintf("catalogue row %q builds a %s (%s)", e.name, got, reflect.TypeOf(o.obj)))
-					}
-					c.Cover("type", e.name)
-					c.Cover("family", f.name)
-					f.run(&lc{c: c, cat: cat, e: e, vi: vi, o: o, name: name, seed: c.Seed})
-				}})
-			}
+		for _, f := range families {
+			e, f := e, f
+			name := fmt.Sprintf("c08/%s/%s", f.name, e.name)
+			scs = append(scs, engine.Scenario{Name: name, Bound: -1, Fn: func(c *engine.Chooser) {
+				if timingFile != nil {
+					t0 := time.Now()
+					defer func() { timing(name, time.Since(t0)) }()
+				}
+				o := original(c.Seed, e, 0)
+				if got := typeName(o.obj); got != e.name {
+					panic(fmt.Sprintf("catalogue row %q builds a %s (%s)", e.name, got, reflect.TypeOf(o.obj)))
+				}
+				c.Cover("type", e.name)
+				c.Cover("family", f.name)
+				f.run(&lc{c: c, cat: cat, e: e, vi: -1, name: name, seed: c.Seed})
+			}})
 		}
 	}
 	return scs
@@ -124,13 +125,13 @@ func main() {
 	engine.Main(engine.Check{
 		ID:    "C08",
 		Level: "fault_enumeration",
-		Rule: "One scenario per (serializable type, catalogue value, oracle family); the method set (BinarySize/WriteTo/ReadFrom/MarshalBinary/UnmarshalBinary/JSON) is discovered per type. " +
+		Rule: "One scenario per (serializable type, oracle family), every leaf looping over all catalogue values of the type; the method set (BinarySize/WriteTo/ReadFrom/MarshalBinary/UnmarshalBinary/JSON) is discovered per type. " +
 			"Leaves (choice points) and what each batches: entrypoints = one leaf per writing entry point (MarshalBinary, 8 writers, BinarySize, JSON); " +
 			"receiver = one leaf per history kind (fresh / constructed as / having decoded [/ two decodes, thorough]) looping over every decoder and every catalogue value of the type as previous content; " +
 			"stream = one leaf per (partner object B, shared buffer.Reader kind) for the stream A|B|A; " +
-			"fragmentation = leaf 0: all reader buffer sizes direct/16/17/100/4096 with the whole data available, then one leaf per (buffer size, chunking class: short reads 1/2/7/9/1000/halves, io.EOF together with data, one (0,nil) read at each position); " +
-			"truncation = one leaf per decoder over every cut offset (all offsets up to 4 KiB, else first 256 + every 64th + last 8; thorough: all); " +
-			"corruption = one leaf per decoder over every located header field (each of the first 64 bytes, every small LE u32/u64, every byte of JSON texts) x {0,1,2,0xff,orig+-1,2^63,2^64-1,2^20,2^31,2^32-1} (JSON: 8 bit flips + 3 bytes), allocation-driving lengths probed at 2^19 and confirmed once per decoder above 64 MiB; " +
+			"fragmentation = leaf 0: all reader buffer sizes direct/16/17/100/4096 with the whole data available, then one leaf per chunking class over all buffer sizes ( short reads 1/2/7/9/1000/halves, io.EOF together with data, one (0,nil) read at each position); " +
+			"truncation = one leaf over every decoder and every cut offset (all offsets up to 4 KiB, else first 256 + every 64th + last 8; thorough: all); " +
+			"corruption = one leaf over every decoder and every located header field (each of the first 64 bytes, every small LE u32/u64, every byte of JSON texts) x {0,1,2,0xff,orig+-1,2^63,2^64-1,2^20,2^31,2^32-1} (JSON: 8 bit flips + 3 bytes), allocation-driving lengths probed at 2^19, attributed to the decoder function that reads the field (traced reader calls) and confirmed once per such function above 64 MiB; " +
 			"writer-failure = one leaf per failing writer kind over every failure offset. Fault-point executions run in a helper process so that fatal errors are observations. " +
 			"distinct_nontrivial counts distinct (scenario, environment, observed result) classes.",
 		Assumptions: []string{
